@@ -134,13 +134,18 @@ def bath_modes(chk, n):
         w0, w1 = rng.choice([1.0, 2.5]), rng.choice([1.0, 3.0])
         corr = oqupy.PowerLawSD(alpha=alpha, zeta=1.0, cutoff=wc, cutoff_type="exponential", temperature=T)
         sz = np.array([[1.0, 0], [0, -1.0]])
+        # every second case: the same pure-dephasing model in a rotated basis (coupling and Hamiltonian along another axis,
+        # complex eigenvectors for sigma_y): the closed form does not change
+        axis = ["z", "x", "z", "y"][it % 4]
+        if axis != "z":
+            sz = np.array(oqupy.operators.sigma(axis))
         bath = oqupy.Bath(sz, corr)
         sysm = oqupy.System(rng.choice([0.0, 1.0, -0.7]) * sz)
         par = oqupy.TempoParameters(dt=dt, epsrel=1e-8, dkmax=None)
-        info = {"kind": "bath-modes", "T": T, "alpha": alpha, "dt": dt, "steps": nst, "initial": "up" if up else "down", "w": [w0, w1]}
+        info = {"kind": "bath-modes", "axis": axis, "T": T, "alpha": alpha, "dt": dt, "steps": nst, "initial": "up" if up else "down", "w": [w0, w1]}
         try:
             pt = quiet(oqupy.pt_tempo_compute, bath, 0.0, nst * dt + 1e-9, parameters=par, progress_type="silent")
-            rho0 = np.diag([1.0, 0.0]) if up else np.diag([0.0, 1.0])
+            rho0 = (np.eye(2) + (1 if up else -1) * sz) / 2          # eigenstate of the coupling operator
             tb = TwoTimeBathCorrelations(sysm, bath, pt, initial_state=rho0.astype(complex))
             # options: band width (g^2 = J dw for the occupation, g = dw sqrt(J) for each operator of a correlation),
             # change_only (without the initial thermal part), interaction_picture (without the free phases)
@@ -161,6 +166,7 @@ def bath_modes(chk, n):
             # every dagger pattern at equal AND at different frequencies, at different and at equal times
             pairs = [(w0, g0, w0, g0), (w0, g0, w_other, g_other)]
             tpairs = [(tl[sel], tl[-1]), (tl[-1], tl[-1])] if it % 2 == 0 else [(tl[sel], tl[-1]), (tl[sel], tl[sel])]
+            tpairs += [(tl[1], tl[-1]), (tl[1], tl[1])] if it % 3 == 0 else [(tl[1], tl[2])]      # regions of a single cell
             for (wa, ga, wb, gb) in pairs:
                 for (ta, tb_) in tpairs:
                     for dagg in ((0, 0), (0, 1), (1, 0), (1, 1)):
